@@ -23,18 +23,78 @@ theorem replace_map_faithful (S : Schema) (doc doc' : Node) (f t : Nat) (sl : Sl
     (fsize doc'.kids : Int) - fsize doc.kids = mapDelta m ∧
     ∀ i : Nat, i < fsize doc.kids → outside m i →
       (ftoks doc'.kids)[(m.map i 1).toNat]? = (ftoks doc.kids)[i]? := by
-  sorry
+  obtain ⟨htoks, hft, htl, hwf⟩ := apply_replace_facts S doc doc' f t sl st h
+  have hlen := Slice.toks_length_int sl hwf
+  have hL : (ftoks doc.kids).length = fsize doc.kids := ftoks_length _
+  dsimp only [Step.getMap]
+  refine ⟨?_, ?_⟩
+  · have := congrArg List.length htoks
+    simp only [List.length_append, List.length_take, List.length_drop, ftoks_length] at this
+    simp only [mapDelta, List.map_cons, List.map_nil, List.sum_cons, List.sum_nil]
+    omega
+  · intro i hi hout
+    have hout' : i < f ∨ t ≤ i := by
+      have := hout ((f : Int), (t : Int) - f, sl.size) (by simp)
+      simp only at this
+      omega
+    rcases hout' with h1 | h1
+    · rw [map_one_lt _ _ _ _ _ (by omega), Int.toNat_natCast, htoks,
+        splice_get_lt _ _ _ _ _ h1 (by omega)]
+    · rw [map_one_ge _ _ _ _ (by omega) (by omega)]
+      have e : ((i : Int) + (sl.size - ((t : Int) - f))).toNat = f + sl.toks.length + (i - t) := by omega
+      rw [e, htoks, splice_get_ge _ _ _ _ _ (by omega) h1]
 
 /-- **replace-around step**: two ranges around the preserved gap -/
+-- STATEMENT CHANGED: added `hne` (the gap is not both empty and flush with `to`, or the slice is
+-- inserted entirely before the gap).  Without it the statement is false: with `gf = gt = t` the two
+-- ranges `(f, gf-f, ins)` and `(gt, 0, size-ins)` touch, the position `i = t` is caught by the END of
+-- the FIRST range and maps (assoc 1) to `f + ins`, i.e. *between* the two inserted halves, not after
+-- them.  Counterexample (#eval, schema doc{paragraph*}, paragraph{text*}):
+--   doc = <p>a</p><p>b</p>, step = replaceAround 3 3 3 3 ⟨[<p></p>],0,0⟩ (insert := 1) false
+--   (also replaceAround 0 3 3 3 … 1): the step applies, `getMap.map 3 1 = 4` resp. `1`, the new token
+--   there is `cl` (the inserted paragraph's close) but the old token 3 is `op paragraph`.
 theorem replaceAround_map_faithful (S : Schema) (doc doc' : Node) (f t gf gt : Nat) (sl : Slice)
     (ins : Nat) (st : Bool) (hwf : sl.wf = true) (hins : (ins : Int) ≤ sl.size)
     (hg : f ≤ gf ∧ gf ≤ gt ∧ gt ≤ t)
+    (hne : gf < gt ∨ gt < t ∨ (ins : Int) = sl.size)
     (h : S.apply (.replaceAround f t gf gt sl ins st) doc = .ok doc') :
     let m := (Step.replaceAround f t gf gt sl ins st).getMap
     (fsize doc'.kids : Int) - fsize doc.kids = mapDelta m ∧
     ∀ i : Nat, i < fsize doc.kids → outside m i →
       (ftoks doc'.kids)[(m.map i 1).toNat]? = (ftoks doc.kids)[i]? := by
-  sorry
+  obtain ⟨htoks, htl, _⟩ := apply_replaceAround_toks S doc doc' f t gf gt sl ins st hwf hins hg h
+  obtain ⟨hg1, hg2, hg3⟩ := hg
+  have hlen := Slice.toks_length_int sl hwf
+  have hL : (ftoks doc.kids).length = fsize doc.kids := ftoks_length _
+  dsimp only [Step.getMap]
+  refine ⟨?_, ?_⟩
+  · have := congrArg List.length htoks
+    simp only [List.length_append, List.length_take, List.length_drop, ftoks_length] at this
+    simp only [mapDelta, List.map_cons, List.map_nil, List.sum_cons, List.sum_nil]
+    omega
+  · intro i hi hout
+    have hout' : i < f ∨ (gf ≤ i ∧ i < gt) ∨ t ≤ i := by
+      have a := hout ((f : Int), (gf : Int) - f, (ins : Int)) (by simp)
+      have b := hout ((gt : Int), (t : Int) - gt, sl.size - ins) (by simp)
+      simp only at a b
+      omega
+    rcases hout' with h1 | ⟨h1, h2⟩ | h1
+    · rw [map_two_lt _ _ _ _ _ _ _ _ (by omega), Int.toNat_natCast, htoks,
+        around_get_lt _ _ _ _ _ _ _ _ (by omega) h1]
+    · rw [map_two_mid _ _ _ _ _ _ _ (by omega) (by omega) (by omega)]
+      have e : ((i : Int) + ((ins : Int) - ((gf : Int) - f))).toNat = f + ins + (i - gf) := by omega
+      rw [e, htoks, around_get_mid _ _ _ _ _ _ _ _ (by omega) (by omega) (by omega) h1 h2]
+    · by_cases hd : gf < i
+      · rw [map_two_ge _ _ _ _ _ _ _ (by omega) (by omega) (by omega) (by omega)]
+        have e : ((i : Int) + ((ins : Int) - ((gf : Int) - f)) + (sl.size - ins - ((t : Int) - gt))).toNat
+            = f + sl.toks.length + (gt - gf) + (i - t) := by omega
+        rw [e, htoks, around_get_ge _ _ _ _ _ _ _ _ (by omega) (by omega) hg2 (by omega) h1]
+      · -- `i = gf = gt = t`: caught by the end of the first range; then `ins = size`
+        have hi' : i = gf := by omega
+        have hs : (ins : Int) = sl.size := by omega
+        rw [map_two_end _ _ _ _ _ _ _ (by omega) (by omega)]
+        have e : ((f : Int) + (ins : Int)).toNat = f + sl.toks.length + (gt - gf) + (i - t) := by omega
+        rw [e, htoks, around_get_ge _ _ _ _ _ _ _ _ (by omega) (by omega) hg2 (by omega) h1]
 
 /-- **mark, node-mark, attribute and doc-attribute steps** report the empty map, keep the size, and
     keep structure and text token by token (only markup of tokens changes) -/
@@ -44,18 +104,49 @@ theorem markup_steps_empty_map (S : Schema) (doc doc' : Node) (st : Step)
     st.getMap = ⟨[], false⟩ ∧
     (ftoks doc'.kids).map Tok.shape = (ftoks doc.kids).map Tok.shape ∧
     ∀ p a, st.getMap.map p a = p := by
-  sorry
+  have node (pos : Nat) (st' : Step)
+      (hst : (∃ m, st' = .addNodeMark pos m) ∨ (∃ m, st' = .removeNodeMark pos m) ∨ (∃ n v, st' = .attr pos n v))
+      (h' : S.apply st' doc = .ok doc') :
+      (ftoks doc'.kids).map Tok.shape = (ftoks doc.kids).map Tok.shape := by
+    obtain ⟨hp, ht, hd, hs, _⟩ := apply_nodeStep_toks S doc doc' pos st' hst h'
+    have hp' : pos < (ftoks doc.kids).length := by rw [ftoks_length]; exact hp
+    have hlen := one_changed_length _ _ pos hp' (balance_ftoks _) (balance_ftoks _) ht hd hs
+    exact shape_of_one_changed _ _ pos hp' hlen ht hd hs
+  cases st with
+  | replace f t sl b => exact absurd rfl (hk f t sl b)
+  | replaceAround f t gf gt sl i b => exact absurd rfl (hk' f t gf gt sl i b)
+  | addMark f t m =>
+    obtain ⟨h1, _⟩ := apply_addMark_toks S doc doc' f t m h
+    exact ⟨rfl, by rw [h1, addMarkToks_shape], fun p a => map_empty p a⟩
+  | removeMark f t m =>
+    obtain ⟨h1, _⟩ := apply_removeMark_toks S doc doc' f t m h
+    exact ⟨rfl, by rw [h1, removeMarkToks_shape], fun p a => map_empty p a⟩
+  | addNodeMark pos m =>
+    exact ⟨rfl, node pos _ (.inl ⟨m, rfl⟩) h, fun p a => map_empty p a⟩
+  | removeNodeMark pos m =>
+    exact ⟨rfl, node pos _ (.inr (.inl ⟨m, rfl⟩)) h, fun p a => map_empty p a⟩
+  | attr pos n v =>
+    exact ⟨rfl, node pos _ (.inr (.inr ⟨n, v, rfl⟩)) h, fun p a => map_empty p a⟩
+  | docAttr n v =>
+    exact ⟨rfl, by rw [apply_docAttr_toks S doc doc' n v h], fun p a => map_empty p a⟩
 
 /-- consequently: a position outside the changed ranges, mapped through the step, points at the
     same content (the token after it) as before -/
 theorem mapped_position_same_content (S : Schema) (doc doc' : Node) (f t : Nat) (sl : Slice) (st : Bool)
     (h : S.apply (.replace f t sl st) doc = .ok doc') (p : Nat) (hp : p < f ∨ t ≤ p) (hps : p < fsize doc.kids) :
     ((ftoks doc'.kids).drop ((Step.replace f t sl st).getMap.map p 1).toNat).head? = ((ftoks doc.kids).drop p).head? := by
-  sorry
+  have key := (replace_map_faithful S doc doc' f t sl st h).2 p hps (by
+    intro r hr
+    simp only [Step.getMap, List.mem_singleton] at hr
+    subst hr
+    simp only
+    omega)
+  rw [List.head?_drop, List.head?_drop]
+  exact key
 
 /-- **Transform.mapping is the list of the recorded steps' maps**, whatever was attempted -/
 theorem mapping_is_step_maps (S : Schema) (doc : Node) (sts : List Step) :
     ((Tr.init doc).run S sts).maps = ((Tr.init doc).run S sts).steps.map Step.getMap := by
-  sorry
+  exact Tr.run_maps S sts (Tr.init doc) (by simp [Tr.init])
 
 end PM.C03
